@@ -107,11 +107,9 @@ def call(F, key, args, depth=0, steps=None):
         for st in blk["s"]:
             if st["k"] != "assign":
                 continue
-            if st["p"][1]:
-                raise EvalError("store through a projection")
             rv = st["rv"]
             k = rv["k"]
-            ty = b.locals[st["p"][0]]
+            ty = b.locals[st["p"][0]] if not st["p"][1] else "u64"
             if k in ("use",):
                 v = read(rv["a"])
             elif k == "cast":
@@ -152,7 +150,17 @@ def call(F, key, args, depth=0, steps=None):
                     raise EvalError(f"aggregate {rv['ak']}")
             else:
                 raise EvalError(f"rvalue {k}")
-            env[st["p"][0]] = v
+            if st["p"][1]:
+                # store into a field of a struct value (e.g. `(*self).mem_size = ..`): structs are dicts, shared by reference
+                tgt = env.get(st["p"][0])
+                path = [p for p in st["p"][1] if p != "*"]
+                if not isinstance(tgt, dict) or not path or not all(p.startswith(".") for p in path):
+                    raise EvalError("store through a projection")
+                for p in path[:-1]:
+                    tgt = tgt[p[1:]]
+                tgt[path[-1][1:]] = v
+            else:
+                env[st["p"][0]] = v
         t = blk["t"]
         if t["k"] == "goto":
             bi = t["to"]
